@@ -211,6 +211,34 @@ def run(index, tier="quick", seed=0) -> Result:
             res.bad("XREF", k, f"{DATA}/science1220869.json", f"{key} ({nm}) differs from its cited source entry in {src}")
         else:
             res.ok("XREF", k)
+    # ISOMER-1: of two Johnson isomers that differ in where the two modified caps sit, the one named Parabi... has them on
+    # opposite sides (a centre of inversion), the one named Metabi... has not: decided on the vertex table itself (for every
+    # vertex v the point 2 c - v is a vertex, c the vertex mean), so a table filed under its isomer's name is found
+    niso = 0
+    for stem, d in data.items():
+        for key, rec in d.items():
+            for nm in {key, rec.get("name")} - {None}:
+                if not isinstance(nm, str) or not nm.startswith(("Parabi", "Metabi")):
+                    continue
+                try:
+                    arr = np.asarray(rec.get("vertices"), dtype=float)
+                    c = arr.mean(axis=0)
+                    refl = 2 * c - arr
+                    dist = np.linalg.norm(refl[:, None, :] - arr[None, :, :], axis=-1).min(axis=1)
+                    scale = np.linalg.norm(arr - c, axis=1).max()
+                    centro = bool((dist < 1e-6 * scale).all())
+                except Exception:
+                    continue
+                niso += 1
+                k = f"{stem}:{nm}:inversion"
+                want = nm.startswith("Parabi")
+                if centro == want:
+                    res.ok("ISOMER-1", k, sample={"entry": f"{stem}:{nm}", "centre_of_inversion": centro})
+                else:
+                    res.bad("ISOMER-1", k, f"{DATA}/{stem}.json", f"{stem}.json: the table filed as {nm!r} has {'a' if centro else 'no'} centre of inversion; a "
+                            f"{'para' if want else 'meta'} isomer has {'one' if want else 'none'} (the vertex tables of the para / meta isomers are exchanged)")
+    if niso < 11:
+        raise AnalysisError(f"ISOMER-1: only {niso} Parabi/Metabi entries found (11 in johnson.json confirmed)")
     res.extra["sourced_entries"] = nsrc
     if nent < 290:
         raise AnalysisError(f"only {nent} entries audited (290 confirmed)")
